@@ -17,7 +17,7 @@ AMPS = [0.0, 0.5, 1.0, 2.0, 3.0, 6.5, 10.0]
 DETS = [0.0, 0.0, -0.5, 0.5, 1.0, -2.0, 4.0, -7.5]
 
 
-def gen_ids(rng, k):
+def gen_ids(rng, k, spare=0):
     """k distinct atom labels: strings, or Python ints that are NOT the atoms'
     positions (a shuffled 0..k-1, or arbitrary ints incl. labels >= k): the
     k-th tensor factor belongs to the k-th atom of the register whatever its
@@ -26,11 +26,14 @@ def gen_ids(rng, k):
     if r < 0.5:
         return rng.sample(ID_POOL, k)
     if r < 0.8:
-        perm = list(range(k))
+        # the last label may be the spare atom (emulator-only): keep the
+        # first k - spare labels a permutation of their own positions
+        m = k - spare
+        perm = list(range(m))
         rng.shuffle(perm)
-        if k > 1 and perm == list(range(k)):
+        if m > 1 and perm == list(range(m)):
             perm = perm[1:] + perm[:1]
-        return perm
+        return perm + list(range(m, k))
     return rng.sample([0, 1, 2, 3, 4, 5, 7, 12, 57, 100], k)
 
 
@@ -201,7 +204,7 @@ def gen_case(rng: random.Random, tier: str):
     n = rng.choice([1, 2, 2, 3, 3, 4][: (5 if nmax == 3 else 6)])
     pts = gen_atoms(rng, n + 1, dim3)
     n = min(n, max(1, len(pts) - 1))
-    names = gen_ids(rng, n + 1)
+    names = gen_ids(rng, n + 1, spare=1)
     atoms = [[names[i], pts[i]] for i in range(n)]
     ids = [a[0] for a in atoms]
     bw = rng.choice([None, None, None, 40.0, 15.0])
